@@ -88,7 +88,7 @@ pub fn run(ctx: &Ctx) -> Outcome {
         let mut rng = Rng::derive(ctx.seed, "C17", wk as u64);
         // bounded exhaustive part: every text of 2..3 (thorough: 2..4) words over the small alphabet of each language, its
         // single spaces replaced throughout by each other whitespace kind and by three multi-element runs
-        const KINDS: [&str; 12] = ["  ", "\t", "\n", "\r\n", "\u{a0}", "\u{2009}", "\u{2003}", "\u{3000}", "\u{2028}", "\n\n", " \t ", "\r\n\r\n"];
+        const KINDS: [&str; 18] = ["  ", "\t", "\n", "\r\n", "\u{a0}", "\u{2009}", "\u{2003}", "\u{3000}", "\u{2028}", "\n\n", " \t ", "\r\n\r\n", "\u{b}", "\u{c}", "\u{85}", "\u{1680}", "\u{202f}", "\u{2029}"];
         let (n_small, cut) = crate::streams::for_each_small_stream(&ls.lex, if ctx.quick() { 3 } else { 4 }, wk, nw, &|| ctx.elapsed() > ctx.budget_s * 0.4, &mut |code, toks| {
             if toks.len() < 2 {
                 return;
@@ -132,7 +132,7 @@ pub fn run(ctx: &Ctx) -> Outcome {
     if !ctx.quick() {
         super::legs::fuzz_leg(ctx, &mut rep, 45);
     }
-    let rule = "cases = every text of 2..3 (thorough 2..4) words over a 16-word alphabet per language with its spaces replaced throughout by each of 12 whitespace kinds / runs (counter exhaustive_small_alphabet_texts); (text, text with every maximal whitespace run replaced by a random run of 1..3 elements over {space, double space, tab, LF, CRLF, NBSP, thin, em, ideographic, U+2028} and runs added at either end); compared: validation result, occurrences tuple for tuple (spans shifted by the added leading token) at thresholds 0,3,10, rewrite of the substituted text against the splice of its own tokens, and both rewrites modulo whitespace; non-trivial = at least one whitespace run substituted and one number recognised";
+    let rule = "cases = every text of 2..3 (thorough 2..4) words over a 16-word alphabet per language with its spaces replaced throughout by each of 18 whitespace kinds / runs (counter exhaustive_small_alphabet_texts); (text, text with every maximal whitespace run replaced by a random run of 1..3 elements over the whole Unicode White_Space set (space, tab, LF, CRLF, CR, VT, FF, NEL, NBSP, ogham, U+2000..U+200A, U+2028, U+2029, U+202F, U+205F, ideographic) and runs added at either end); compared: validation result, occurrences tuple for tuple (spans shifted by the added leading token) at thresholds 0,3,10, rewrite of the substituted text against the splice of its own tokens, and both rewrites modulo whitespace; non-trivial = at least one whitespace run substituted and one number recognised";
     finish(ctx, rep, rule, &["only char::is_whitespace characters are used (zero-width space is not whitespace)"], vec![])
 }
 
